@@ -1,7 +1,7 @@
 (* C05 — One red element per tree position under any thread interleaving.  Property theorems only.
    The machine (Conc.v) has any number of threads running any programs; Reach quantifies over every
    schedule (the scheduler may ask for any thread at every step). *)
-From CsModel Require Import Red RedProofs Conc ConcProofs ConcHandles ConcReclaim ConcWf ConcTear.
+From CsModel Require Import Red RedProofs Conc ConcProofs ConcHandles ConcReclaim ConcWf ConcTear ConcLoser ConcOffsets.
 
 (* all handles any threads hold, are about to receive or have received for one position are the same
    element (same identity), by whatever routes and in whatever interleaving they were obtained *)
@@ -44,3 +44,25 @@ Theorem C05_slot_kinds_correct : forall g progs s k q e,
   is_enode e = child_is_node g q k /\ NodePos (c_slots s) q.
 Proof. exact slot_kinds_correct. Qed.
 Print Assumptions C05_slot_kinds_correct.
+
+(* correct range: whoever won the race for a slot and by whichever route it came, the offset stored for
+   every handle any thread holds is the true text offset of its position *)
+Theorem C05_handles_carry_true_offsets : forall g, LenOk g -> forall progs s t h,
+  Reach g progs s -> c_torn s = false -> In t (c_threads s) -> In h (thread_handles t) ->
+  off_of (c_offs s) (fst h) = true_off g (fst h).
+Proof. exact handles_carry_true_offsets. Qed.
+Print Assumptions C05_handles_carry_true_offsets.
+
+(* losing a creation race has no observable effect: the loser's four steps (write lock; +2; -1 and free
+   the candidate; -1 and unlock) leave count, slots, offsets, locks, data and allocation counter as they
+   were; the candidate block is gone and the thread re-reads the slot *)
+Theorem C05_loser_neutral : forall g s tid t p i off c keep rest e,
+  nth_error (c_threads s) tid = Some t -> t_cont t = MWrite p i off (Some c) keep :: rest ->
+  slot_lookup (c_slots s) (i :: p) = Some e ->
+  let s4 := own_step g (own_step g (own_step g (own_step g s tid) tid) tid) tid in
+  c_rc s4 = c_rc s /\ c_slots s4 = c_slots s /\ c_wlock s4 = c_wlock s /\ c_next s4 = c_next s /\
+  c_data s4 = c_data s /\ c_torn s4 = c_torn s /\ c_payload_drops s4 = c_payload_drops s /\
+  c_live s4 = remove Nat.eq_dec c (c_live s) /\ c_freed s4 = c :: c_freed s /\ c_offs s4 = c_offs s /\
+  c_threads s4 = set_nth (c_threads s) tid (mkThread (t_regs t) (t_prog t) (MRead p i RIter false keep :: rest) (t_out t)).
+Proof. exact loser_neutral. Qed.
+Print Assumptions C05_loser_neutral.
